@@ -150,7 +150,7 @@ def run(chk: lib.Check):
             A = graph.Abstraction()
             fragmented_layout = "resources" not in spec and hi % 3 == 2
             runner = histories.HistoryRunner(model, rng, savedir=tmp,
-                                             kinds=histories.HistoryRunner.KINDS + ["save", "viewpoint"] + (["delete_linked"] * 6 + ["placeholder_ancestor"] * 3 if fragmented_layout else []))
+                                             kinds=histories.HistoryRunner.KINDS + ["save", "viewpoint", "move_role", "move_role"] + (["delete_linked"] * 6 + ["placeholder_ancestor"] * 3 if fragmented_layout else []))
             tracked = [p for p in loader.trees if p.suffix not in graph.VISUAL and p.parts[0] == "\0"]
             before = {p: A.nodes(loader.trees[p]) for p in tracked}
             nodes0 = {p: list(before[p]) for p in tracked}
